@@ -184,3 +184,35 @@ def validate_trace(chk, module, cfg, lines, stage, env=None, workers=1, timeout=
         st["tlc_states"] += res.distinct
         st["wall_s"] = round(st["wall_s"] + res.wall, 2)
     return [r[1:] for r in res.marked("REJECT")]
+
+
+def validate_trace_parallel(chk, module, cfg, lines, stage, jobs=8, chunk=400, env=None):
+    """as validate_trace, but the lines are independent observations: split into chunks validated by several TLC processes.
+    Returns REJECT tuples with global (1-based) line numbers."""
+    from concurrent.futures import ThreadPoolExecutor
+    parts = [(i, lines[i:i + chunk]) for i in range(0, len(lines), chunk)]
+    out = []
+
+    def work(arg):
+        i, part = arg
+        path = os.path.join(chk.scratch, "ptrace-%s-%d.ndjson" % (stage, i))
+        tlc.write_ndjson(path, part)
+        e = {"TRACE_FILE": path}
+        if env:
+            e.update(env)
+        res = tlc.run(module, cfg, workers=1, env=e, timeout=3600, scratch=chk.scratch)
+        done = res.marked("DONE")
+        if not done or done[0][1] != len(part):
+            raise tlc.TlcFailure("trace spec %s did not consume chunk %d:\n%s" % (module, i, res.out[-2500:]))
+        return i, len(part), res, [r[1:] for r in res.marked("REJECT")]
+    with ThreadPoolExecutor(max_workers=jobs) as ex:
+        for i, n, res, rej in ex.map(work, parts):
+            chk.traces += 1
+            chk.trace_lines += n
+            st = chk.stages.setdefault(stage, {"trace_lines": 0, "tlc_states": 0, "wall_s": 0})
+            st["trace_lines"] += n
+            st["tlc_states"] += res.distinct
+            st["wall_s"] = round(st["wall_s"] + res.wall, 2)
+            for r in rej:
+                out.append([r[0] + i] + r[1:])
+    return out
